@@ -159,7 +159,7 @@ func c09Values() []c09Value {
 	ref("RefArr", "&arr as &[Int]", "AnyStruct", "&[Int]", "&[Int]")
 	ref("RefAccount", "getAccount(0x1)", "AnyStruct", "&Account", "&Account")
 	// typed: the variable has the reference type itself
-	for _, a := range tygen.Auths() {
+	for _, a := range append(tygen.Auths(), tygen.ExtraAuths()...) {
 		src := a.Source + "&C.S"
 		ref("RefS."+a.Name, "&s as "+src, src, src, src)
 	}
@@ -167,6 +167,16 @@ func c09Values() []c09Value {
 	ref("RefIE", "&s2 as auth(C.E) &{C.I}", "auth(C.E) &{C.I}", "auth(C.E) &{C.I}", "auth(C.E) &C.S2")
 	ref("RefAnyE", "&s as auth(C.E) &AnyStruct", "auth(C.E) &AnyStruct", "auth(C.E) &AnyStruct", "auth(C.E) &C.S")
 	ref("RefArrM", "&arr as auth(Mutate) &[Int]", "auth(Mutate) &[Int]", "auth(Mutate) &[Int]", "auth(Mutate) &[Int]")
+	// containers / optionals whose run-time type nests an entitled reference
+	nest := func(name, kind, expr string) {
+		vs = append(vs, c09Value{Name: name, Setup: setup, Expr: expr, Decl: "AnyStruct", Class: "plain", Kind: kind})
+	}
+	for _, a := range []struct{ n, src string }{{"EF", "auth(C.E, C.F) &C.S"}, {"EG", "auth(C.E, C.G) &C.S"}, {"EorF", "auth(C.E | C.F) &C.S"}, {"G", "auth(C.G) &C.S"}} {
+		nest("ArrRef."+a.n, "array-of-reference", "[&s as "+a.src+"]")
+		nest("DictRef."+a.n, "dictionary-of-reference", `{"a": &s as `+a.src+`}`)
+		nest("ConstArrRef."+a.n, "array-of-reference", "([&s as "+a.src+"] as ["+a.src+"; 1])")
+	}
+	nest("ArrOptRef.EF", "array-of-reference", "([&s as auth(C.E, C.F) &C.S] as [(auth(C.E, C.F) &C.S)?])")
 	// resources
 	res := func(name, kind, expr string) {
 		vs = append(vs, c09Value{Name: name, Expr: expr, Decl: "@AnyResource", Resource: true, Class: "plain", Kind: kind})
@@ -184,22 +194,29 @@ func c09Values() []c09Value {
 // c09Targets: the denotable members of 𝒯(1) all of whose atoms lie in the core set.
 func c09Targets(env *mc.Env) []tygen.Ty {
 	core := map[string]bool{}
-	for _, n := range []string{"Int", "UInt8", "String", "AnyStruct", "AnyResource", "Never", "HashableStruct", "Integer", "Number",
-		"Bool", "Type", "Void", "Path", "Account",
-		"A.0000000000000001.C.S", "A.0000000000000001.C.S2", "A.0000000000000001.C.R", "A.0000000000000001.C.En",
+	for _, n := range []string{"Int", "String", "AnyStruct", "AnyResource", "Never", "HashableStruct", "Integer",
+		"A.0000000000000001.C.S", "A.0000000000000001.C.S2", "A.0000000000000001.C.R",
 		"A.0000000000000001.C.I", "A.0000000000000001.C.RI"} {
 		core[n] = true
 	}
 	if env.Thorough() {
-		for _, n := range []string{"Int8", "Int256", "UInt64", "Word8", "UFix64", "Fix64", "SignedInteger", "FixedPoint", "Character", "Address",
+		for _, n := range []string{"UInt8", "Number", "Bool", "Type", "Void", "Path", "Account", "A.0000000000000001.C.En","Int8", "Int256", "UInt64", "Word8", "UFix64", "Fix64", "SignedInteger", "FixedPoint", "Character", "Address",
 			"PublicPath", "StoragePath", "CapabilityPath", "AnyStructAttachment", "AnyResourceAttachment", "Capability",
 			"A.0000000000000001.C.S3", "A.0000000000000001.C.R2", "A.0000000000000001.C.I2", "A.0000000000000001.C.Inner"} {
 			core[n] = true
 		}
 	}
 	var out []tygen.Ty
-	for _, t := range tygen.Universe(1) {
+	isExtra := map[string]bool{}
+	for _, t := range tygen.Extras() {
+		isExtra[t.Name] = true
+	}
+	for _, t := range tygen.UniversePlus(1) {
 		if !t.Denotable() {
+			continue
+		}
+		if isExtra[t.Name] {
+			out = append(out, t) // nested optionals, every authorization bare and nested
 			continue
 		}
 		if t.Depth == 0 {
@@ -642,8 +659,8 @@ func c09Trunc(s string) string {
 }
 
 // c09FailSubset: the targets on which an aborting `as!` is executed (one
-// script each): quick = the first target of every (kind, resource-ness,
-// optional-or-not) class plus every atom of the core; thorough = all.
+// script each): quick = the first two targets of every (constructor kind,
+// resource-ness, depth) class plus six atoms; thorough = all.
 func c09FailSubset(env *mc.Env, targets []tygen.Ty) []tygen.Ty {
 	if env.Thorough() {
 		return targets
@@ -651,12 +668,14 @@ func c09FailSubset(env *mc.Env, targets []tygen.Ty) []tygen.Ty {
 	seen := map[string]int{}
 	var out []tygen.Ty
 	for _, t := range targets {
-		key := c09TargetClass(t)
+		key := fmt.Sprintf("%s/%v/%d", t.Kind, t.Resource, t.Depth)
+		limit := 2
 		if t.Depth == 0 {
 			key = "atom:" + fmt.Sprint(seen["atoms"]%6)
 			seen["atoms"]++
+			limit = 1
 		}
-		if seen[key] < 1 {
+		if seen[key] < limit {
 			seen[key]++
 			out = append(out, t)
 		}
@@ -821,7 +840,7 @@ func replayC09(env *mc.Env, raw json.RawMessage) (bool, string) {
 	}
 	var target tygen.Ty
 	found = false
-	for _, t := range tygen.Universe(1) {
+	for _, t := range tygen.UniversePlus(1) {
 		if t.Name == c.Target {
 			target, found = t, true
 		}
